@@ -2,3 +2,4 @@ import Zstd.Basic
 import Zstd.Props.C14
 import Zstd.Spec.Frame
 import Zstd.Model.FrameDecoder
+import Zstd.Props.C17
